@@ -70,8 +70,15 @@ const handshakeSize = 12
 func performHandshake(rw io.ReadWriter) error {
 	var h handshake
 
-	// Copy exactly handshakeSize bytes from rw to handshake
-	if _, err := io.CopyN(&h, rw, handshakeSize); err != nil {
+	// Read exactly handshakeSize bytes from rw, however the transport splits them, then parse them.
+	// (io.CopyN would hand each partial read to handshake.Write, which needs the whole record.)
+	buf := make([]byte, handshakeSize)
+	n, err := io.ReadFull(rw, buf)
+	if err != nil && !errors.Is(err, io.ErrUnexpectedEOF) {
+		return fmt.Errorf("read handshake: %w", err)
+	}
+	// A stream that ended early is rejected by Write as an invalid handshake size.
+	if _, err := h.Write(buf[:n]); err != nil {
 		return fmt.Errorf("read handshake: %w", err)
 	}
 	if !h.Valid() {
